@@ -2,6 +2,7 @@
 from __future__ import annotations
 
 import ast
+import os
 from typing import Any, Dict, List, Optional, Tuple
 
 import z3
@@ -239,10 +240,80 @@ class Exec(Interp):
         v = self.eval(s.value)
         for t in s.targets:
             self.assign(t, v)
+            self._note_alias(t, s.value, v)
 
     def stmt_AnnAssign(self, s):
         if s.value is not None:
-            self.assign(s.target, self.eval(s.value))
+            v = self.eval(s.value)
+            self.assign(s.target, v)
+            self._note_alias(s.target, s.value, v)
+
+    # ---- aliases of containers held in attributes.  Containers are values in this engine; the one aliasing pattern that
+    # is common in the code base - `x = self.attr` followed by mutation of `x` - is handled by remembering the origin:
+    # a mutation through the local is written back to the origin as well, and a read of the local sees a mutation made
+    # through the origin.  Anything less clear-cut drops the link (the local then is an independent value: the documented
+    # no-aliasing assumption).
+    @staticmethod
+    def _attr_chain(node):
+        n = node
+        while isinstance(n, ast.Attribute):
+            n = n.value
+        return isinstance(node, ast.Attribute) and isinstance(n, ast.Name)
+
+    def _note_alias(self, target, value_node, v):
+        if not isinstance(target, ast.Name):
+            return
+        al = self.frame.__dict__.setdefault("aliases", {})
+        al.pop(target.id, None)
+        if self._attr_chain(value_node):
+            sv = z3.simplify(v)
+            cn = V.ctor_name(sv)
+            if cn is None:
+                from . import prelude
+                if prelude.entails(self, z3.Or(V.is_dict(sv), V.is_list(sv))):
+                    cn = "dict"
+            if cn in ("dict", "list"):
+                al[target.id] = [value_node, sv]
+
+    def _alias_sync_read(self, name):
+        al = self.frame.__dict__.get("aliases")
+        if not al or name not in al or getattr(self, "_in_alias", False):
+            return
+        origin, last = al[name]
+        self._in_alias = True
+        try:
+            cur = z3.simplify(self.eval(origin))
+        except (PyRaise, Unsupported):
+            al.pop(name, None)
+            return
+        finally:
+            self._in_alias = False
+        if not z3.eq(cur, last):
+            if z3.eq(z3.simplify(self.frame.vars.get(name)), last):
+                self.frame.vars[name] = cur          # mutated through the origin: the local names the same container
+                al[name][1] = cur
+            else:
+                al.pop(name, None)
+
+    def _alias_write_through(self, name, old, new):
+        al = self.frame.__dict__.get("aliases")
+        if not al or name not in al or getattr(self, "_in_alias", False):
+            return
+        origin, last = al[name]
+        self._in_alias = True
+        try:
+            try:
+                cur = z3.simplify(self.eval(origin))
+            except (PyRaise, Unsupported):
+                al.pop(name, None)
+                return
+            if z3.eq(cur, z3.simplify(old)):
+                self.write_back(origin, new)
+                al[name][1] = z3.simplify(new)
+            else:
+                al.pop(name, None)
+        finally:
+            self._in_alias = False
 
     def stmt_AugAssign(self, s):
         cur = self.eval(self._load_of(s.target))
@@ -565,9 +636,70 @@ class Exec(Interp):
                 kd = V.ctor_name(z3.simplify(v0))
                 if kd in AUTO_KINDS and ("refuted", self.frame.key, cell[2], kd) not in wset:
                     auto.append((cell[2], kd))
+        # inferred value-stability invariants (same Houdini scheme): a flag-like cell - a local of any live frame or an
+        # attribute of a concrete object - that holds a literal bool / None at loop entry keeps it, unless refuted
+        def _flag(v):
+            sv = z3.simplify(v)
+            if V.ctor_name(sv) == "none":
+                return sv
+            if V.ctor_name(sv) == "bool":
+                b = z3.simplify(Val.b(sv))
+                return sv if (z3.is_true(b) or z3.is_false(b)) else None
+            return None
+        frames_by_key = {}
+        for f in self.frames:
+            g = f
+            while g is not None:
+                frames_by_key.setdefault(g.key, g)
+                g = g.parent
+        auto_vals = []
+        for cell in sorted(wset, key=repr):
+            if cell[0] == "local" and cell[2] != iname:
+                f = frames_by_key.get(cell[1])
+                v0 = f.vars.get(cell[2]) if f is not None else None
+                if v0 is None or isinstance(v0, MaybeUnbound) or not z3.is_expr(v0):
+                    continue
+                lit = _flag(v0)
+                if lit is not None and ("refuted", cell[1], cell[2], "val") not in wset:
+                    auto_vals.append(("local", cell[1], cell[2], lit))
+            elif cell[0] == "heap" and cell[2] is not None:
+                hv, hs = self.get_field(V.VObj(cell[2]), cell[1])
+                if not z3.is_true(hs):
+                    continue
+                lit = _flag(hv)
+                if lit is not None and ("refuted", "heap", cell[1], cell[2], "val") not in wset:
+                    auto_vals.append(("heap", cell[1], cell[2], lit))
+        if os.environ.get("PYVC_DEBUG_AUTO"):
+            print(f"[auto] loop {key}: wset={sorted(wset, key=repr)[:40]} auto={auto} auto_vals={auto_vals}", flush=True)
         self.havoc(wset, keep={iname} if seq is not None else set())
         for nm, kd in auto:
             self.assume(AUTO_KINDS[kd](self.frame.vars[nm]))
+        for c in auto_vals:
+            if c[0] == "local":
+                self.assume(frames_by_key[c[1]].vars[c[2]] == c[3])
+            else:
+                h, a = self.st.field(c[1])
+                self.assume(z3.And(z3.Select(a, c[2]), z3.Select(h, c[2]) == c[3]))
+        self.loop_auto_vals = getattr(self, "loop_auto_vals", {})
+        self.loop_auto_vals[key] = auto_vals
+        # a local that aliases a container held in an attribute and is only MUTATED (never rebound) in the loop still names
+        # that container at every iteration
+        al = self.frame.__dict__.get("aliases") or {}
+        if al:
+            rebound = assigned_names(s.body + ([s.target] if hasattr(s, "target") else []))
+            for nm in list(al):
+                if nm in rebound:
+                    al.pop(nm, None)
+                    continue
+                self._in_alias = True
+                try:
+                    cur = z3.simplify(self.eval(al[nm][0]))
+                    self.frame.vars[nm] = cur
+                    al[nm][1] = cur
+                except (PyRaise, Unsupported):
+                    al.pop(nm, None)
+                finally:
+                    self._in_alias = False
         self.loop_auto = getattr(self, "loop_auto", {})
         self.loop_auto[key] = (self.frame.key, auto)
         if seq is not None:
@@ -650,6 +782,26 @@ class Exec(Interp):
                 (V.ctor_name(z3.simplify(v)) == kd or prelude.entails(self, AUTO_KINDS[kd](v)))
             if not ok:
                 self.write_recorders[-1][1].add(("refuted", fk, nm, kd))
+        frames_by_key = {}
+        for f in self.frames:
+            g = f
+            while g is not None:
+                frames_by_key.setdefault(g.key, g)
+                g = g.parent
+        for c in getattr(self, "loop_auto_vals", {}).get(key, []):
+            if c[0] == "local":
+                f = frames_by_key.get(c[1])
+                v = f.vars.get(c[2]) if f is not None else None
+                ok = v is not None and not isinstance(v, MaybeUnbound) and \
+                    (z3.eq(z3.simplify(v), c[3]) or prelude.entails(self, v == c[3]))
+                if not ok:
+                    self.write_recorders[-1][1].add(("refuted", c[1], c[2], "val"))
+            else:
+                h, a = self.st.field(c[1])
+                v = z3.simplify(z3.Select(h, c[2]))
+                ok = z3.eq(v, c[3]) or prelude.entails(self, z3.And(z3.Select(a, c[2]), v == c[3]))
+                if not ok:
+                    self.write_recorders[-1][1].add(("refuted", "heap", c[1], c[2], "val"))
         # record writes before the path stops
         rec = self.write_recorders[-1]
         self._merge_writes(rec)
@@ -776,7 +928,10 @@ class Exec(Interp):
         """Containers are values: an element update is written back to the place it was read from
         (names, attributes, nested subscripts).  Assumes no aliasing of mutable containers."""
         if isinstance(expr, ast.Name):
+            old = self.frame.vars.get(expr.id)
             self.set_local(expr.id, new)
+            if old is not None and z3.is_expr(old):
+                self._alias_write_through(expr.id, old, new)
         elif isinstance(expr, ast.Attribute):
             obj = self.eval(expr.value)
             self.store_attr(obj, expr.attr, new, expr)
@@ -829,6 +984,8 @@ class Exec(Interp):
         return V.lift(e.value)
 
     def expr_Name(self, e):
+        if self.frame.__dict__.get("aliases"):
+            self._alias_sync_read(e.id)
         return self.lookup(e.id, e)
 
     def expr_Await(self, e):
@@ -1294,9 +1451,15 @@ class Exec(Interp):
                 r = h(self, cd, args, kwargs, node)
                 if r is not None:
                     return r
-            if "dataclass" in ci.decorators:
+            if "dataclass" in ci.decorators or "NamedTuple" in ci.bases:
+                # dataclass / typing.NamedTuple: the generated constructor stores each argument under the field's name
+                # (a NamedTuple additionally unpacks and indexes as the tuple of its fields: prelude.seq_and_kind)
                 ov = self.new_object(cd)
                 names = list(ci.annotations.keys())
+                if "NamedTuple" in ci.bases:
+                    if not hasattr(self.ctx, "namedtuple_fields"):
+                        self.ctx.namedtuple_fields = {}
+                    self.ctx.namedtuple_fields[cd.cid] = names
                 bound = dict(zip(names, args))
                 bound.update(kwargs)
                 for n in names:
@@ -1388,6 +1551,11 @@ class Exec(Interp):
                    "int": "int", "bool": "bool", "real": "real", "none": "none"}[cn]
             if name in BUILTIN_ATTRS.get(key, ()):
                 return self.ctx.fn_val(FnDesc("bmethod", name, recv=sv, name=f"{key}.{name}"))
+            real_type = {"str": str, "bytes": bytes, "list": list, "tuple": tuple, "dict": dict, "int": int, "bool": bool,
+                         "real": float, "none": type(None)}[key]
+            if default is None and hasattr(real_type, name):
+                # the real type HAS this attribute; the engine just does not model it: undecided, not an AttributeError
+                raise Unsupported(f"method {key}.{name}", node)
             return missing()
         # symbolic value of unknown shape
         if self.choose(V.is_obj(sv), f"attr_{name}_on_obj"):
@@ -1438,4 +1606,8 @@ class Exec(Interp):
                     return self.eval_module_const(c.module, c.class_attrs[name])
         if default is not None:
             return default
+        if cd is not None and cd.kind == "env" and getattr(cd.info, "closed_api", False) and not name.startswith("_"):
+            # the object models an external library object whose API is only partly under contract: an attribute the
+            # contract does not know is unknown behaviour (undecided), not an AttributeError of the real object
+            raise Unsupported(f"environment contract {cd.info.name} says nothing about .{name}", node)
         self.throw("AttributeError", f"object has no attribute '{name}'")
